@@ -143,7 +143,7 @@ def run(ctx):
                      f"config['{key}']: {what} is shape-guarded" if ok else
                      f"config['{key}'] is used with a required shape ({what}) without an isinstance guard or a converting try: a value of the "
                      f"wrong JSON type surfaces as a raw AttributeError/TypeError/ValueError", node)
-    c.floor("R3", "shape-dependent uses of raw config values", n, 8)
+    c.floor("R3", "shape-dependent uses of raw config values", n, 4)
     cm = p.func("factory:create_machine")
     gets = [x for x in own_nodes(cm.node) if isinstance(x, ast.Call) and isinstance(x.func, ast.Attribute) and x.func.attr == "get" and dotted(x.func.value) == cm.params[0]]
     ins = [x for x in own_nodes(cm.node) if isinstance(x, ast.Compare) and isinstance(x.ops[0], (ast.In, ast.NotIn)) and norm(x.comparators[0]) == cm.params[0]]
